@@ -16,6 +16,7 @@ import (
 	"go/ast"
 	"go/constant"
 	"go/parser"
+	"go/printer"
 	"go/token"
 	"path/filepath"
 	"sort"
@@ -68,11 +69,23 @@ type transFunc struct {
 	fields  map[string]fieldSpec   // receiver field → GoMini field
 	types   map[string]string      // Go type text → static type (named types of zap and the std lib)
 	consts  map[string]string      // named constants: Go text → integer literal (decimal) or "bool:true"
+	tail    *tailSpec              // the end of the body is NOT translated but replaced by one recorded intrinsic
 	inout   []string               // pointer parameters the function mutates: their final values are returned after the declared results
 	recvNil string                 // pointer receiver that may be nil: GoMini (bool) field holding `recv == nil`
 	recvAs  *fieldSpec             // the receiver VALUE itself (a slice type such as multiWriteSyncer) as a field
 	structs map[string][]fieldSpec // struct types passed by value: static type "struct:<name>" is a list of these fields
 	calls   map[string]shim        // "<static type or package>.<Name>" → meaning
+}
+
+// tailSpec: from the first top-level statement whose source text is `from` on, the body is replaced by
+// `res = f(args…); return res` (or `f(args…); return` when res is empty).  The cut is explicit in the generated
+// file; what follows it is outside the theorem.
+type tailSpec struct {
+	from  string
+	f     string
+	args  []string // locals / parameters handed to the intrinsic
+	res   string
+	trace string
 }
 
 type transSpec struct {
@@ -119,6 +132,7 @@ type xl struct {
 	inouts      []tvar               // in-out parameters, in the order of fn.inout
 	subst       map[*ast.CallExpr]tx // calls hoisted out of an expression
 	hoistLeaves int                  // operands seen so far while walking an expression in evaluation order
+	hoistFields int                  // … of which field reads, constants and calls left in place
 	stmts_      int
 }
 
@@ -285,6 +299,9 @@ func (x *xl) constTo(n ast.Node, e tx, t string) tx {
 
 // defaultType: an untyped constant on its own is an int (rune constants too: they are integers here).
 func (x *xl) defaulted(n ast.Node, e tx) tx {
+	if e.typ == "nil" { // a bare nil (argument position): every nil-able representation is the empty list
+		return tx{lean: "(.lit (.list []))", typ: "nil"}
+	}
 	if e.typ != "untyped" {
 		return e
 	}
@@ -307,6 +324,12 @@ func (x *xl) namedConst(n ast.Node, txt string) (tx, bool) {
 		}
 		if strings.HasPrefix(s, "str:") {
 			return tx{typ: "untyped", val: constant.MakeString(s[4:])}, true
+		}
+		if strings.HasPrefix(s, "val:") { // a constant of a declared (nil-able) type: "val:<type>|<GoMini literal>"
+			if i := strings.Index(s, "|"); i > 0 {
+				return tx{lean: "(.lit (" + s[i+1:] + "))", typ: s[4:i]}, true
+			}
+			x.fail(n, "bad constant %q in whitelist entry", s)
 		}
 		if i := strings.Index(s, ":"); i > 0 { // typed constant "u8:128"
 			v := intConst(s[i+1:])
@@ -454,6 +477,45 @@ func (x *xl) expr(e ast.Expr) tx {
 			return tx{lean: "(.index " + a.lean + " " + i.lean + ")", typ: a.typ[2:]}
 		}
 		x.fail(e, "indexing a value of type %s", a.typ)
+	case *ast.CompositeLit:
+		// T{Field: v, …} for a struct type the entry declares: the list of the DECLARED fields in declared order; a
+		// key the entry does not declare is refused, a declared field that is not given takes its zero value
+		typ, ok := x.tryType(t.Type)
+		if !ok || !strings.HasPrefix(typ, "struct:") {
+			x.fail(e, "composite literal of %s is outside the subset", exprString(t.Type))
+		}
+		decl := x.fn.structs[typ[7:]]
+		given := map[string]string{}
+		for _, el := range t.Elts {
+			kv, ok := el.(*ast.KeyValueExpr)
+			if !ok {
+				x.fail(e, "positional composite literal")
+			}
+			k := exprString(kv.Key)
+			var ft string
+			for _, f := range decl {
+				if f.lean == k {
+					ft = f.typ
+				}
+			}
+			if ft == "" {
+				x.fail(e, "field %s of %s is not declared in the whitelist entry", k, typ)
+			}
+			given[k] = x.coerce(kv.Value, x.expr(kv.Value), ft).lean
+		}
+		var parts []string
+		for _, f := range decl {
+			if v, ok := given[f.lean]; ok {
+				parts = append(parts, v)
+				continue
+			}
+			z, ok := zeroOf(f.typ)
+			if !ok {
+				x.fail(e, "no zero value for field %s of %s", f.lean, typ)
+			}
+			parts = append(parts, "(.lit ("+z+"))")
+		}
+		return tx{lean: "(.call \"tuple\" [" + strings.Join(parts, ", ") + "])", typ: typ}
 	case *ast.SliceExpr:
 		if t.Slice3 {
 			x.fail(e, "3-index slice is outside the subset")
@@ -600,7 +662,7 @@ func (x *xl) binary(t *ast.BinaryExpr) tx {
 	if op, ok := cmpOps[t.Op]; ok {
 		okT := isInt(a.typ)
 		if t.Op == token.EQL || t.Op == token.NEQ {
-			okT = okT || a.typ == "bool" || a.typ == "string"
+			okT = okT || a.typ == "bool" || a.typ == "string" || strings.HasPrefix(a.typ, "opt:")
 		}
 		if !okT {
 			x.fail(t, "%s applied to %s", t.Op, a.typ)
@@ -761,8 +823,9 @@ func (x *xl) callExpr(c *ast.CallExpr) (tx, bool) {
 	hasRecv := false
 	isSelf := false
 	var sel *ast.SelectorExpr
+	isPkgFn := false
 	if id, ok := c.Fun.(*ast.Ident); ok {
-		key = id.Name // a package-level function of the same package, called by name
+		key, isPkgFn = id.Name, true // a package-level function of the same package, called by name
 		sel = &ast.SelectorExpr{X: id, Sel: id}
 	} else {
 		sel = c.Fun.(*ast.SelectorExpr)
@@ -916,7 +979,7 @@ func (x *xl) callExpr(c *ast.CallExpr) (tx, bool) {
 		pendingCall = &tcall{ctor: "call", f: sh.f, args: args, res: sh.res}
 		return tx{}, true
 	case "fun":
-		if !isSelf {
+		if !isSelf && !isPkgFn {
 			x.fail(c, "translated function %s must be called on the receiver itself", key)
 		}
 		addArgs()
@@ -1057,8 +1120,8 @@ func (x *xl) appendCall(c *ast.CallExpr) tx {
 //   - an external intrinsic (`extstmt`) reads and writes nothing the Go code can see (its trace pseudo-field apart), so
 //     it may move in front of every PURE evaluation that precedes it; it is hoisted from any position that is
 //     evaluated unconditionally, i.e. not from the right operand of && / || (several such calls keep their order);
-//   - any other statement-level call (mutation, compare-and-swap, translated function) is hoisted only when it is the
-//     FIRST thing the expression evaluates.
+//   - any other statement-level call (mutation, compare-and-swap, translated function) is hoisted only when everything
+//     the expression evaluates before it is a local variable or a literal (a callee cannot change the caller's locals).
 //
 // Loop conditions are never hoisted from (they are re-evaluated).  Anything else is outside the subset.
 func (x *xl) hoistWalk(e ast.Expr, conditional bool, out *[]string) {
@@ -1080,16 +1143,26 @@ func (x *xl) hoistWalk(e ast.Expr, conditional bool, out *[]string) {
 				x.hoistWalk(b, conditional, out)
 			}
 		}
+	case *ast.CompositeLit:
+		for _, el := range t.Elts {
+			if kv, ok := el.(*ast.KeyValueExpr); ok {
+				x.hoistWalk(kv.Value, conditional, out)
+			}
+		}
 	case *ast.SelectorExpr:
 		x.hoistWalk(t.X, conditional, out)
 		x.hoistLeaves++
+		x.hoistFields++
 	case *ast.Ident, *ast.BasicLit:
 		x.hoistLeaves++
 	case *ast.CallExpr:
-		before := x.hoistLeaves
+		before := x.hoistFields
 		x.hoistArgs(t, conditional, out)
 		x.hoistCall(t, conditional, before == 0, out)
 		x.hoistLeaves++
+		if _, hoisted := x.subst[t]; !hoisted {
+			x.hoistFields++ // a call left in place may read anything
+		}
 	}
 }
 
@@ -1137,7 +1210,7 @@ func (x *xl) hoistCall(t *ast.CallExpr, conditional, first bool, out *[]string) 
 	}
 	pure := pc.ctor == "callX" && len(pc.pre) == 0
 	if !pure && !first {
-		x.fail(t, "call %s changes state and is not the first thing its expression evaluates", exprString(t.Fun))
+		x.fail(t, "call %s changes state and is evaluated after a field read or another call", exprString(t.Fun))
 	}
 	tmp := tvar{fmt.Sprintf("l%d", x.nloc), pc.res[0]}
 	x.nloc++
@@ -1153,7 +1226,7 @@ func (x *xl) hoistCall(t *ast.CallExpr, conditional, first bool, out *[]string) 
 // statement translator deals with the call itself).
 func (x *xl) hoist(e ast.Expr, root bool) []string {
 	var out []string
-	x.hoistLeaves = 0
+	x.hoistLeaves, x.hoistFields = 0, 0
 	if c, ok := e.(*ast.CallExpr); ok && root {
 		x.hoistArgs(c, false, &out)
 		return out
@@ -1779,6 +1852,64 @@ func (x *xl) rangeStmt(t *ast.RangeStmt) string {
 	return x.namedLoop("(.range " + k + " " + v + " " + xs.lean + "\n  " + indent(body, 2) + ")")
 }
 
+// cutBody translates the top-level statements before the cut and ends with the tail intrinsic.
+func (x *xl) cutBody(fd *ast.FuncDecl) string {
+	tl := x.fn.tail
+	x.push()
+	defer x.pop()
+	var out []string
+	found := false
+	for _, st := range fd.Body.List {
+		if strings.Join(strings.Fields(transNodeText(st)), " ") == strings.Join(strings.Fields(tl.from), " ") {
+			found = true
+			break
+		}
+		out = append(out, x.stmt(st))
+	}
+	if !found {
+		x.fail(fd, "the statement %q that starts the untranslated tail was not found at top level", tl.from)
+	}
+	var args []string
+	for _, a := range tl.args {
+		v, ok := x.lookup(a)
+		if !ok {
+			x.fail(fd, "tail argument %s is not a local", a)
+		}
+		args = append(args, "(.loc "+leanStr(v.lean)+")")
+	}
+	x.legend = append(x.legend, "CUT: everything from `"+tl.from+"` on is the recorded intrinsic "+tl.f)
+	if tl.trace != "" {
+		fs, ok := x.fn.fields[tl.trace]
+		if !ok {
+			x.fail(fd, "tail names the unmapped trace field %s", tl.trace)
+		}
+		rec := append([]string{"(.lit (.bytes " + leanBytes([]byte(tl.f)) + ") /- " + tl.f + " -/)"}, args...)
+		out = append(out, "(.assign [(.fld "+leanStr(fs.lean)+")] [(.call \"append\" [(.fld "+leanStr(fs.lean)+"), (.call \"tuple\" ["+strings.Join(rec, ", ")+"])])])")
+	}
+	if tl.res == "" {
+		if len(x.results) != 0 {
+			x.fail(fd, "tail without result in a function with results")
+		}
+		out = append(out, "(.callX [] "+leanStr(tl.f)+" ["+strings.Join(args, ", ")+"])", "(.ret [])")
+		return block(out)
+	}
+	if len(x.results) != 1 || x.results[0] != tl.res {
+		x.fail(fd, "tail result type %s does not match the function's results", tl.res)
+	}
+	tmp := fmt.Sprintf("l%d", x.nloc)
+	x.nloc++
+	x.legend = append(x.legend, tmp+" = (result of the tail intrinsic) "+tl.res)
+	out = append(out, "(.callX [(.loc "+leanStr(tmp)+")] "+leanStr(tl.f)+" ["+strings.Join(args, ", ")+"])", "(.ret [(.loc "+leanStr(tmp)+")])")
+	return block(out)
+}
+
+// nodeText renders a statement with go/printer (whitespace is normalised by the caller)
+func transNodeText(n ast.Node) string {
+	var sb strings.Builder
+	_ = printer.Fprint(&sb, token.NewFileSet(), n)
+	return sb.String()
+}
+
 func (x *xl) inoutVals() string {
 	var rs []string
 	for _, v := range x.inouts {
@@ -1878,7 +2009,12 @@ func (x *xl) function() (lean string, err error) {
 		x.inouts = append(x.inouts, v)
 		x.legend = append(x.legend, v.lean+" is in-out: its final value is returned")
 	}
-	body := x.scoped(fd.Body)
+	var body string
+	if x.fn.tail == nil {
+		body = x.scoped(fd.Body)
+	} else {
+		body = x.cutBody(fd)
+	}
 	if len(x.inouts) > 0 {
 		body = block([]string{body, "(.ret [" + x.inoutVals() + "])"})
 	}
